@@ -178,6 +178,27 @@ def wiring_case(kind, call):
                 c.check("%s state: volatility[%d,%d]" % (kind, n, i), api.eq(api.elem(vol, n, i), ul.sigma))
                 if kind in ("ambinary", "lookback"):
                     c.check("%s state: running max[%d,%d]" % (kind, n, i), api.eq(api.elem(deriv.max_log_moneyness(), n, i), run))
+        # the underlier is simulated again with the same shape (fresh series through its own register_buffer): the same module objects
+        # must price from the new state (nothing memoised per derivative or per buffer object may survive)
+        cm.set_buffers(c, ul, "again", N, T)
+        lm2, ttm2, vol2 = deriv.log_moneyness(), deriv.time_to_maturity(), ul.volatility
+        if kind == "european":
+            w3 = F.bs_european_price(lm2, ttm2, vol2, strike=K, call=call)
+        elif kind == "eubinary":
+            w3 = F.bs_european_binary_price(lm2, ttm2, vol2, call=call)
+        elif kind == "ambinary":
+            w3 = F.bs_american_binary_price(lm2, deriv.max_log_moneyness(), ttm2, vol2)
+        else:
+            w3 = F.bs_lookback_price(lm2, deriv.max_log_moneyness(), ttm2, vol2, K)
+        for name, m in (("from_derivative", m_from), ("BlackScholes", m_bs)):
+            c.check("%s: price() after a same-shape re-simulation uses the new state (%s)" % (kind, name),
+                    api.tensor_same(m.price()[:, :-1], w3[:, :-1]))
+        S2 = ul.spot
+        for n in range(N):
+            c.check("%s state after re-simulation: log-moneyness[%d,1]" % (kind, n), api.eq(api.elem(lm2, n, 1), api.log(api.elem(S2, n, 1) / K)))
+            if kind in ("ambinary", "lookback"):
+                c.check("%s state after re-simulation: running max[%d,1]" % (kind, n),
+                        api.eq(api.elem(deriv.max_log_moneyness(), n, 1), api.maxv(api.log(api.elem(S2, n, 0) / K), api.log(api.elem(S2, n, 1) / K))))
 
     return fn
 
